@@ -158,6 +158,22 @@ CLAIMED = {
                 "line changes no behaviour on Python >= 3.7.1 and is reported as no-failing-input-found.",
         "technique": "Lean 4 proof over a translator-generated configuration table + audit-hook fault search",
     },
+    "C17": {
+        "text": "Lean theorems over the model of Binding.headercontent: exactly one Security entry, first, iff a "
+                "WS-Security object is configured; ready-made Elements are copied, all of them, in order (as long as "
+                "no plain value is left without a declared part); plain values of a sequence are matched to the "
+                "declared parts positionally and surplus values dropped; a dict is read in declared order with "
+                "missing parts omitted, each entry tied to its own part; scalar and empty shapes. Tied to the code by "
+                "generated WSDLs (0..3 header parts, simple and complex, each in its own namespace) x every shape of "
+                "soapheaders x WS-Security configurations x call sequences re-using the same objects: the Header "
+                "read by expat is compared entry by entry with the model (names, namespaces, marshalled values, "
+                "verbatim copies), tokens are checked field by field (xsd:dateTime forms included), repeated calls "
+                "must send the same headers and must leave the caller's Elements untouched.",
+        "design_ref": "DESIGN.md section 6 C17",
+        "note": "the contents of each entry (marshalling, token rendering) are checked on the implementation, not "
+                "proved; list-valued header values are outside the alphabet (D15).",
+        "technique": "Lean 4 proof (list recursion over the soapheaders shapes) + differential correspondence with expat as reader",
+    },
 }
 
 NOT_YET = "check not built yet in this round (design in DESIGN.md section 6); not claimed"
